@@ -534,7 +534,7 @@ void Engine::run() {
 			const J &stev = se["stop_bus"];
 			if (stev.size() > 0) stb = sim::spawn([this, &stev]() { run_bus_events(stev); }, "stopbus");
 			do_stop();
-			if (stb >= 0) sim::join(stb);
+			if (stb >= 0) { sim::join(stb); bus.pending.clear(); }      // (what the stopped library did not read any more does not wait on the line for the next session)
 			if (prop) prop->on_session_stop(*this, (int) s);
 			if (se.getb("stop_again", false)) {
 				size_t w = bus.wire.size(); size_t te = sim::thread_events().size(); uint64_t t0 = sim::now_us();
